@@ -85,7 +85,37 @@ func NewDomConverter(flags ConverterFlag, builder webdoc.DocumentBuilder, pageUR
 
 func (dc *DomConverter) Convert(root *html.Node) {
 	clone := dom.Clone(root, true)
+	removeForeignRawTextElements(root, clone)
 	domutil.WalkNodes(clone, dc.visitNodeHandler, dc.exitNodeHandler)
+}
+
+// removeForeignRawTextElements removes from clone, which is a deep clone of src,
+// the MathML and SVG elements that have the name of an HTML raw text element
+// (xmp, noembed, iframe, ...). In MathML and SVG those are unknown elements with
+// ordinary text, but a clone doesn't keep the namespace and the HTML serializer
+// writes the text of elements with these names without escaping it, so once the
+// output is parsed again that text becomes markup that was never part of the page.
+func removeForeignRawTextElements(src, clone *html.Node) {
+	srcChild, cloneChild := src.FirstChild, clone.FirstChild
+	for srcChild != nil && cloneChild != nil {
+		nextSrcChild, nextCloneChild := srcChild.NextSibling, cloneChild.NextSibling
+
+		remove := false
+		if srcChild.Type == html.ElementNode && srcChild.Namespace != "" {
+			switch srcChild.Data {
+			case "iframe", "noembed", "noframes", "noscript", "plaintext", "script", "style", "xmp":
+				remove = true
+			}
+		}
+
+		if remove {
+			clone.RemoveChild(cloneChild)
+		} else {
+			removeForeignRawTextElements(srcChild, cloneChild)
+		}
+
+		srcChild, cloneChild = nextSrcChild, nextCloneChild
+	}
 }
 
 func (dc *DomConverter) visitNodeHandler(node *html.Node) bool {
